@@ -198,32 +198,37 @@ SegP    == [t |-> "p", n |-> "", i |-> 0]
 PathOf(s) == [bad |-> 0, s |-> s]
 BadPath(n) == [bad |-> n, s |-> <<>>]
 
-\* grammar: starts with a field name, brackets follow a name, "[]" only as the last segment
-PathOK(p) == /\ p.bad = 0 /\ Len(p.s) > 0 /\ p.s[1].t = "f"
-             /\ \A i \in 1..(Len(p.s) - 1) : p.s[i].t # "p"
+\* grammar: starts with a field name, brackets follow a name
+PathOK(p) == p.bad = 0 /\ Len(p.s) > 0 /\ p.s[1].t = "f"
+\* "[]" is "valid only as the final segment of an APPEND or PREPEND path": anywhere else the path is invalid
+MarkerOK(p) == \A i \in 1..(Len(p.s) - 1) : p.s[i].t # "p"
 
 RRes(st, loc, at, e, why, t) == [st |-> st, loc |-> loc, at |-> at, e |-> e, why |-> why, t |-> t]
 
 \* Resolve: "found" (loc = target), "missing" (loc = deepest existing map, at = first missing segment),
-\* "append" (loc = the array the final [] refers to), "err" (e = class, why = "oob" / "kind")
+\* "append" (loc = the array the final [] refers to), "err" (e = class, why = "oob" / "kind" / "marker";
+\* "marker": a non-final [] was reached - only possible when the path was not validated up front, see
+\* deviation AppendMarkerNoop)
 RECURSIVE Res(_, _, _, _, _, _)
-Res(S, cur, loc, segs, i, t) ==
-  LET seg == segs[i]  final == (i = Len(segs)) IN
+Res(S, cur, loc, segs, i, t0) ==
+  LET seg == segs[i]  final == (i = Len(segs))
+      t == t0 \cup (IF seg.t = "f" THEN TMap(cur) ELSE TArr(cur)) IN    \* the walk looks into cur
   CASE seg.t = "f" ->
-         IF ~IsMap(S, cur) THEN RRes("err", loc, i, "tm", "kind", t \cup TMap(cur))
+         IF ~IsMap(S, cur) THEN RRes("err", loc, i, "tm", "kind", t)
          ELSE LET idx == FieldIdx(cur, seg.n) IN
               IF idx = 0 THEN RRes("missing", loc, i, "", "", t)
               ELSE IF final THEN RRes("found", Append(loc, idx), 0, "", "", t)
               ELSE Res(S, cur.f[idx].d, Append(loc, idx), segs, i + 1, t)
     [] seg.t = "i" ->
-         IF ~IsArr(S, cur) THEN RRes("err", loc, i, "tm", "kind", t \cup TArr(cur))
+         IF ~IsArr(S, cur) THEN RRes("err", loc, i, "tm", "kind", t)
          ELSE LET n == Len(cur.e)
                   j == IF seg.i < 0 THEN n + seg.i + 1 ELSE seg.i + 1 IN
               IF j < 1 \/ j > n THEN RRes("err", loc, i, "pi", "oob", t)
               ELSE IF final THEN RRes("found", Append(loc, j), 0, "", "", t)
               ELSE Res(S, cur.e[j], Append(loc, j), segs, i + 1, t)
     [] seg.t = "p" ->
-         IF ~IsArr(S, cur) THEN RRes("err", loc, i, "tm", "kind", t \cup TArr(cur))
+         IF ~final THEN RRes("err", loc, i, "pi", "marker", t0)
+         ELSE IF ~IsArr(S, cur) THEN RRes("err", loc, i, "tm", "kind", t)
          ELSE RRes("append", loc, i, "", "", t)
 Resolve(S, doc, segs) == Res(S, doc, <<>>, segs, 1, {})
 
@@ -263,13 +268,13 @@ OpDelete(S, doc, segs) ==
   LET r == Resolve(S, doc, segs) IN
   CASE r.st = "err" /\ r.why = "oob" ->
          IF "DeleteOobNoop" \in S THEN Ok(doc, r.t \cup {"DeleteOobNoop"}) ELSE Fail({"pi"}, r.t \cup {"DeleteOobNoop"})
-    [] r.st = "err" /\ r.why # "oob" ->
+    [] r.st = "err" /\ r.why = "marker" -> Fail({"pi"}, r.t)
+    [] r.st = "err" /\ r.why = "kind" ->
          IF "DeleteThroughLeafNoop" \in S THEN Ok(doc, r.t \cup {"DeleteThroughLeafNoop"})
          ELSE Fail({"tm"}, r.t \cup {"DeleteThroughLeafNoop"})
     [] r.st = "found"   -> Ok(RemoveLoc(doc, r.loc), r.t)
     [] r.st = "missing" -> Ok(doc, r.t)
-    [] r.st = "append"  -> IF "AppendMarkerNoop" \in S THEN Ok(doc, r.t \cup {"AppendMarkerNoop"})
-                           ELSE Fail({"pi"}, r.t \cup {"AppendMarkerNoop"})
+    [] r.st = "append"  -> Ok(doc, r.t)            \* only reached as built (see ApplyOp): nothing to do
 
 (* INC: "adds the numeric Value (delta) to the existing numeric leaf at Path, preserving the target's    *)
 (* exact msgpack type code. Missing field auto-creates with the delta's type. Class mismatch is           *)
@@ -340,14 +345,13 @@ RemoveValBase(S, doc, segs, val) ==
   LET r == Resolve(S, doc, segs) IN
   CASE r.st = "err"     -> Fail({r.e}, r.t)
     [] r.st = "missing" -> Ok(doc, r.t)
-    [] r.st = "append"  -> IF "AppendMarkerNoop" \in S THEN Ok(doc, r.t \cup {"AppendMarkerNoop"})
-                           ELSE Fail({"pi"}, r.t \cup {"AppendMarkerNoop"})
+    [] r.st = "append"  -> Ok(doc, r.t)            \* only reached as built (see ApplyOp): nothing to do
     [] r.st = "found"   ->
          LET a == Get(doc, r.loc) IN
          IF ~IsArr(S, a) THEN Fail({"tm"}, r.t \cup TArr(a))
          ELSE LET hits  == {i \in DOMAIN a.e : Matches(S, a.e[i], val)}
                   cands == {i \in DOMAIN a.e : SameBytes(a.e[i], val)}
-                  tt    == r.t \cup (IF \E i \in cands : a.e[i].k # "L" THEN {"RemoveValSkipsContainers", "OpaqueSplice"} ELSE {}) IN
+                  tt    == r.t \cup TArr(a) \cup (IF \E i \in cands : a.e[i].k # "L" THEN {"RemoveValSkipsContainers", "OpaqueSplice"} ELSE {}) IN
               IF hits = {} THEN Ok(doc, tt)
               ELSE LET i == CHOOSE i \in hits : \A j \in hits : i <= j IN
                    Ok(Put(doc, r.loc, [a EXCEPT !.e = Without(@, i)]), tt)
@@ -387,9 +391,14 @@ OpMerge(S, doc, segs, val) ==
        ELSE Fail(AnyFail, base.t \cup {"LenientTrailing"})
 
 \* op = [k |-> kind, p |-> path, v |-> value]   (v ignored by DELETE / REMOVE_AT)
-ApplyOp(S, doc, op) ==
-  IF ~PathOK(op.p) THEN Fail(IF op.k \in {"DELETE", "REMOVE_AT"} \/ ~IsX(op.v) THEN {"pi"} ELSE AnyFail, {})
-  ELSE CASE op.k = "SET"        -> OpSet(S, doc, op.p.s, op.v)
+\* error classes of the value alone (they apply whatever the path is)
+ValErr(op) == IF op.k \in {"DELETE", "REMOVE_AT"} THEN {}
+              ELSE IF IsX(op.v) THEN AnyFail
+              ELSE IF op.k = "INC" /\ (op.v.k # "L" \/ Class(op.v.c) = "none") THEN {"tm"}
+              ELSE IF op.k = "MERGE" /\ op.v.k # "M" THEN {"tm"}
+              ELSE {}
+ApplyOp1(S, doc, op) ==
+       CASE op.k = "SET"        -> OpSet(S, doc, op.p.s, op.v)
          [] op.k = "DELETE"     -> OpDelete(S, doc, op.p.s)
          [] op.k = "INC"        -> OpInc(S, doc, op.p.s, op.v)
          [] op.k = "APPEND"     -> OpAppend(S, doc, op.p.s, op.v, FALSE)
@@ -397,6 +406,15 @@ ApplyOp(S, doc, op) ==
          [] op.k = "REMOVE_AT"  -> OpRemoveAt(S, doc, op.p.s)
          [] op.k = "REMOVE_VAL" -> OpRemoveVal(S, doc, op.p.s, op.v)
          [] op.k = "MERGE"      -> OpMerge(S, doc, op.p.s, op.v)
+\* a path with a misplaced "[]" is invalid (PATH_INVALID); as built the marker is only looked at where the
+\* walk happens to reach it (deviation AppendMarkerNoop), r below is what then happens
+MarkerValid(op) == MarkerOK(op.p) /\ (Last(op.p.s).t = "p" => op.k \in {"APPEND", "PREPEND"})
+ApplyOp(S, doc, op) ==
+  IF ~PathOK(op.p) THEN Fail({"pi"} \cup ValErr(op), {})
+  ELSE IF MarkerValid(op) THEN ApplyOp1(S, doc, op)
+  ELSE LET r == ApplyOp1(S, doc, op) IN
+       IF "AppendMarkerNoop" \in S THEN [r EXCEPT !.t = @ \cup {"AppendMarkerNoop"}]
+       ELSE Fail({"pi"} \cup ValErr(op) \cup r.e, r.t \cup {"AppendMarkerNoop"})
 
 \* "every op runs under the same guard hold and either all commit or none do": the first failing op decides
 RECURSIVE ApplyOps(_, _, _, _, _)
@@ -421,11 +439,13 @@ Compare(S, a, th) ==
                 THEN CRes(IF "NaNEqual" \in S THEN "eq" ELSE "un", {}, {"NaNEqual"})
                 ELSE CRes(NumCmp(FOrd(a), FOrd(th)), {}, {})
        ELSE CRes(NumCmp(a, th), {}, {})
+  ELSE IF (a.k = "L" /\ a.c = "ext") \/ (th.k = "L" /\ th.c = "ext")
+       THEN CRes("err", {"tm", "enc"}, {})      \* application extension types: no comparison is documented
   ELSE IF ka \in {"str", "bin", "bool"} THEN
        IF ka # kb THEN CRes("err", {"tm"}, {})
        ELSE IF ka = "bool" THEN CRes(IF a.v = th.v THEN "eq" ELSE IF a.v < th.v THEN "lt" ELSE "gt", {}, {})   \* false < true
        ELSE CRes(IF a.v = th.v THEN "eq" ELSE IF StrLess(a.v, th.v) THEN "lt" ELSE "gt", {}, {})
-  ELSE \* nil / time / ext: only identity is defined ("unsupported leaf type for comparison" otherwise)
+  ELSE \* nil / time: only identity is defined ("unsupported leaf type for comparison" otherwise)
        IF SameBytes(a, th) THEN CRes("eq", {}, {}) ELSE CRes("err", {"tm"}, {})
 
 Holds(op, c) == CASE op = "EQ" -> c = "eq"
@@ -436,25 +456,32 @@ Holds(op, c) == CASE op = "EQ" -> c = "eq"
                   [] op = "LE" -> c \in {"lt", "eq"}
 
 \* "evaluated once, before any op runs"; EXISTS / NOT_EXISTS "test for the presence of a leaf field"
+EvalCond1(S, doc, c) ==
+  LET r == Resolve(S, doc, c.p.s)
+      oob == r.st = "err" /\ r.why = "oob"
+      asMissing == oob /\ "ExistsOobMissing" \in S
+      t0 == r.t \cup (IF oob THEN {"ExistsOobMissing"} ELSE {})
+      exists == r.st = "found" /\ Get(doc, r.loc).k = "L" IN
+  IF (oob /\ ~asMissing) \/ (r.st = "err" /\ r.why = "marker") THEN CRes("err", {"pi"}, t0)
+  ELSE IF c.op = "EX" THEN CRes(IF exists THEN "met" ELSE "notmet", {}, t0)
+  ELSE IF c.op = "NX" THEN CRes(IF exists THEN "notmet" ELSE "met", {}, t0)
+  ELSE IF r.st = "err" /\ ~oob THEN CRes("err", {"tm"}, t0)
+  ELSE IF ~exists THEN
+         IF c.op = "NE" /\ (r.st = "missing" \/ asMissing)
+           THEN CRes(IF "NeMissingMet" \in S THEN "met" ELSE "notmet", {}, t0 \cup {"NeMissingMet"})
+           ELSE CRes("notmet", {}, t0)
+  ELSE LET cmp == Compare(S, Get(doc, r.loc), c.th) IN
+       IF cmp.r = "err" THEN CRes("err", cmp.e, t0 \cup cmp.t)
+       ELSE CRes(IF Holds(c.op, cmp.r) THEN "met" ELSE "notmet", {}, t0 \cup cmp.t)
+\* a condition path never may contain the "[]" marker (valid only with APPEND / PREPEND); as built it is
+\* only looked at where the walk reaches it (deviation AppendMarkerNoop)
 EvalCond(S, doc, c) ==
   IF c.op = "NONE" THEN CRes("met", {}, {})
   ELSE IF ~PathOK(c.p) THEN CRes("err", {"pi"}, {})
-  ELSE LET r == Resolve(S, doc, c.p.s)
-           oob == r.st = "err" /\ r.why = "oob"
-           asMissing == oob /\ "ExistsOobMissing" \in S
-           t0 == r.t \cup (IF oob THEN {"ExistsOobMissing"} ELSE {})
-           exists == r.st = "found" /\ Get(doc, r.loc).k = "L" IN
-       IF oob /\ ~asMissing THEN CRes("err", {"pi"}, t0)
-       ELSE IF c.op = "EX" THEN CRes(IF exists THEN "met" ELSE "notmet", {}, t0)
-       ELSE IF c.op = "NX" THEN CRes(IF exists THEN "notmet" ELSE "met", {}, t0)
-       ELSE IF r.st = "err" /\ ~oob THEN CRes("err", {"tm"}, t0)
-       ELSE IF ~exists THEN
-              IF c.op = "NE" /\ (r.st = "missing" \/ asMissing)
-                THEN CRes(IF "NeMissingMet" \in S THEN "met" ELSE "notmet", {}, t0 \cup {"NeMissingMet"})
-                ELSE CRes("notmet", {}, t0)
-       ELSE LET cmp == Compare(S, Get(doc, r.loc), c.th) IN
-            IF cmp.r = "err" THEN CRes("err", cmp.e, t0 \cup cmp.t)
-            ELSE CRes(IF Holds(c.op, cmp.r) THEN "met" ELSE "notmet", {}, t0 \cup cmp.t)
+  ELSE IF \A i \in DOMAIN c.p.s : c.p.s[i].t # "p" THEN EvalCond1(S, doc, c)
+  ELSE LET r == EvalCond1(S, doc, c) IN
+       IF "AppendMarkerNoop" \in S THEN [r EXCEPT !.t = @ \cup {"AppendMarkerNoop"}]
+       ELSE CRes("err", {"pi"} \cup r.e, r.t \cup {"AppendMarkerNoop"})
 
 -----------------------------------------------------------------------------
 (* the whole patch *)
@@ -500,7 +527,7 @@ IncKeepsCode(S, body, ops, cond) ==
        /\ (Class(new.c) # "float" => InRange(new.c, new))
 
 \* untouched values keep their exact bytes: a top-level field that no op path starts with is unchanged,
-\* and the fields that were there keep their relative order
+\* and those fields keep their relative order
 TopNames(d) == [i \in DOMAIN d.f |-> d.f[i].n]
 UntouchedIdentical(S, body, ops, cond) ==
   LET r == ApplyS(S, body, ops, cond)
@@ -510,7 +537,7 @@ UntouchedIdentical(S, body, ops, cond) ==
     /\ \A i \in DOMAIN body.f : body.f[i].n \notin touched =>
           LET j == FieldIdx(r.d, body.f[i].n) IN j # 0 /\ r.d.f[j].d = body.f[i].d
     /\ \A i, j \in DOMAIN body.f :
-          (i < j /\ FieldIdx(r.d, body.f[i].n) # 0 /\ FieldIdx(r.d, body.f[j].n) # 0)
+          (i < j /\ body.f[i].n \notin touched /\ body.f[j].n \notin touched)
              => FieldIdx(r.d, body.f[i].n) < FieldIdx(r.d, body.f[j].n)
 
 AllProps(S, body, ops, cond) ==
